@@ -79,6 +79,7 @@ func (c *recUDPConn) RemoveNatEntry() {
 	defer c.r.mu.Unlock()
 	c.r.evs = append(c.r.evs, udpEv{Kind: "remove", Assoc: c.id})
 }
+
 // AddCipherSearch: the server finished the key search for a datagram of a client without an
 // association (used by the harness only to know that the datagram has been processed)
 func (r *recUDP) AddCipherSearch(found bool, d time.Duration) {
